@@ -554,6 +554,31 @@ func TestVerifC05(t *testing.T) {
 		w.Replay(level, s)
 	}
 
+	// secrets of every length class the input validation admits (a DPoP jti may be up to 256 characters; the others are unbounded):
+	// presented twice in a row, and every interleaving of two requests for one length chosen by the seed
+	for _, k := range kinds {
+		lengths := []int{1, 43, 200, 240, 241, 250, 256}
+		if k != "jti" {
+			lengths = append(lengths, 1000)
+		}
+		for li, n := range lengths {
+			id := c05LongID(n)
+			good := c05Variants(k, id)[0]
+			var init []storage.VerifC05Init
+			if k != "s2s" && k != "jti" {
+				init = []storage.VerifC05Init{{Kind: k, ID: id, Val: "clientA"}}
+			}
+			s := c05Scn(fmt.Sprintf("%s-2-len%d", k, n), "mem", init, good, good)
+			if li == int(seed+int64(len(k)))%len(lengths) {
+				cnt, cut := w.Explore(level, s, maxRuns)
+				w.Count(s, cnt, cut)
+				continue
+			}
+			s.Sched = []int{0, 0, 0, 0, 0, 1, 1, 1, 1, 1}
+			w.Replay(level, s)
+		}
+	}
+
 	// hostile OpenID4VP responses: after the first use of a secret of ANY kind, an authorization response with several presentations
 	// whose challenges disagree is posted (validatePresentationNonce then deletes every challenge, before any signature check);
 	// the challenges are every "/"-tail of every key the session database has seen.  Then the secret is replayed.
@@ -644,6 +669,13 @@ func c05ReplayWindows(w *storage.VerifC05Writer, base *Wrapper, path string) {
 	}
 }
 
+func c05LongID(n int) string {
+	if n <= 2 {
+		return strings.Repeat("z", n)
+	}
+	return strings.Repeat("k", n-2) + "s1"
+}
+
 func c05Cross(w *storage.VerifC05Writer, level storage.VerifC05Level, base *Wrapper, kind string) {
 	good := c05Variants(kind, "s1")[0]
 	var init []storage.VerifC05Init
@@ -656,28 +688,65 @@ func c05Cross(w *storage.VerifC05Writer, level storage.VerifC05Level, base *Wrap
 		panic(err)
 	}
 	first := fns[0]()
-	// every tail of every key seen so far, as challenge of a presentation of its own, plus a decoy so that they disagree
-	challenges := map[string]bool{"decoy-challenge": true}
+	// hostile keys: every "/"-tail of every key the session database has seen, and "../"-relative paths to those keys from
+	// stores of depth 1..3 (a join that normalises paths would resolve them)
+	hostile := map[string]bool{}
 	for _, key := range b.Gate.SeenKeys() {
 		for i, c := range key {
 			if c == '/' && i+1 < len(key) {
-				challenges[key[i+1:]] = true
+				hostile[key[i+1:]] = true
 			}
 		}
+		for d := 1; d <= 3; d++ {
+			hostile[strings.Repeat("../", d)+key] = true
+		}
 	}
-	var raws []string
-	for c := range challenges {
-		raws = append(raws, c05LDPresentation("challenge", c).Raw())
+	var keys []string
+	for k := range hostile {
+		keys = append(keys, k)
 	}
-	sort.Strings(raws)
-	vpToken := "[" + strings.Join(raws, ",") + "]"
+	sort.Strings(keys)
 	wr := *base
 	wr.storageEngine = c05Engine{Engine: base.storageEngine, db: b.DB}
+	httpCtx := context.WithValue(context.Background(), httpRequestContextKey{}, &http.Request{Header: http.Header{}})
 	state := "clientA"
-	_, herr := wr.handleAuthorizeResponseSubmission(context.Background(), HandleAuthorizeResponseRequestObject{SubjectID: verifierSubject,
+	// (1) the OpenID4VP response endpoint: all hostile keys as disagreeing challenges of one response (burn-all), plus a decoy
+	raws := []string{c05LDPresentation("challenge", "decoy-challenge").Raw()}
+	for _, k := range keys {
+		raws = append(raws, c05LDPresentation("challenge", k).Raw())
+	}
+	vpToken := "[" + strings.Join(raws, ",") + "]"
+	_, _ = wr.handleAuthorizeResponseSubmission(context.Background(), HandleAuthorizeResponseRequestObject{SubjectID: verifierSubject,
 		Body: &HandleAuthorizeResponseFormdataRequestBody{State: &state, VpToken: &vpToken}})
-	hostile := c05Outcome(herr, map[string]string{"invalid or missing nonce/challenge": "missing-param"})
+	for _, k := range keys {
+		k := k
+		// (2) the same endpoint with a single presentation (GetAndDelete of the challenge)
+		one := c05LDPresentation("challenge", k).Raw()
+		_, _ = wr.handleAuthorizeResponseSubmission(context.Background(), HandleAuthorizeResponseRequestObject{SubjectID: verifierSubject,
+			Body: &HandleAuthorizeResponseFormdataRequestBody{State: &state, VpToken: &one}})
+		// (3) the token endpoint burns every code it is shown: without code_verifier (deferred Delete only) and as a full request
+		client, verifier := "clientA", "verifier"
+		_, _ = wr.HandleTokenRequest(httpCtx, HandleTokenRequestRequestObject{SubjectID: verifierSubject,
+			Body: &HandleTokenRequestFormdataRequestBody{GrantType: oauth.AuthorizationCodeGrantType, Code: &k}})
+		_, _ = wr.HandleTokenRequest(httpCtx, HandleTokenRequestRequestObject{SubjectID: verifierSubject,
+			Body: &HandleTokenRequestFormdataRequestBody{GrantType: oauth.AuthorizationCodeGrantType, Code: &k, ClientId: &client, CodeVerifier: &verifier}})
+		// (4) request objects by id, both methods
+		_, _ = wr.RequestJWTByGet(context.Background(), RequestJWTByGetRequestObject{SubjectID: "clientA", Id: k})
+		_, _ = wr.RequestJWTByPost(context.Background(), RequestJWTByPostRequestObject{SubjectID: "clientA", Id: k})
+		// (5) the landing page with the key as redirect token
+		func() {
+			defer func() { _ = recover() }()
+			rec := httptest.NewRecorder()
+			req := httptest.NewRequest(http.MethodGet, "/oauth2/holder/user", nil)
+			q := req.URL.Query()
+			q.Set("token", k)
+			req.URL.RawQuery = q.Encode()
+			_ = wr.handleUserLanding(echo.New().NewContext(req, rec))
+		}()
+	}
+	hostileResult := fmt.Sprintf("%d-keys", len(keys))
+	_ = hostileResult
 	replay := fns[1]()
 	op := map[string]interface{}{"op": "cross", "kind": kind, "init": init, "threads": []storage.VerifC05Req{good, good}}
-	w.Raw(op, fmt.Sprintf("cross kind=%s first=%s hostile=%s replay=%s", kind, first, hostile, replay))
+	w.Raw(op, fmt.Sprintf("cross kind=%s first=%s hostile=done replay=%s", kind, first, replay))
 }
